@@ -144,6 +144,28 @@ class _SimTimeModule:
             return _real_time_mod.time()
         return clock.now()
 
+    def monotonic(self):
+        clock = _clock_holder['clock']
+        if clock is None:
+            return _real_time_mod.monotonic()
+        return clock.monotonic()
+
+    perf_counter = monotonic
+
+    def sleep(self, dt):
+        """No real sleeping inside a simulation: the simulated clocks move
+        and the scheduler may run somebody else (polling loops, back-off)."""
+        clock = _clock_holder['clock']
+        if clock is None:
+            return _real_time_mod.sleep(dt)
+        proc = current()
+        if proc is not None and proc.dead:
+            raise SimKill()
+        clock.advance(max(0.0, float(dt)))
+        if proc is not None:
+            proc.sim.probe('simulated_sleep')
+        kernel.yield_point()
+
     def __getattr__(self, name):
         return getattr(_real_time_mod, name)
 
@@ -159,12 +181,16 @@ def install_clock(clock):
     _clock_holder['clock'] = clock
     getc = lambda: _clock_holder['clock']     # noqa: E731
     shim_mod = _SimDatetimeModule(getc)
-    pre = 'panqec.simulation'
+    pre = 'panqec'
     del _clock_undo[:]
+    tm = _SimTimeModule()
     for real, repl in ((_real_datetime_mod, shim_mod),
                        (_real_datetime_mod.datetime, shim_mod.datetime),
-                       (_real_time_mod, _SimTimeModule()),
-                       (_real_time_mod.time, _SimTimeModule().time)):
+                       (_real_time_mod, tm),
+                       (_real_time_mod.time, tm.time),
+                       (_real_time_mod.sleep, tm.sleep),
+                       (_real_time_mod.monotonic, tm.monotonic),
+                       (_real_time_mod.perf_counter, tm.perf_counter)):
         _clock_undo.append((patch_everywhere(real, repl, prefix=pre), real))
     gzip.time = _SimTimeModule()
 
